@@ -553,3 +553,76 @@ def r13h(ctx: Ctx, modules: tuple[str, ...] = ("cirkit.templates",)) -> list[Ob]
     if n_fn == 0:
         out.append(unres("R13h", modules[0], "along-the-ordering", "no template function takes an ordering (another formulation): no verdict", ""))
     return out
+
+
+# ------------------------------------------------------------------------------------------ R13i
+STATE_OFFSET = {"num_categories": 0, "num_states": 0, "total_count": -1}  # value = states + offset
+
+
+def r13i(ctx: Ctx, fq: str = "cirkit.templates.tensor_factorizations._input_layer_factory_builder", size: str = "dim") -> list[Ob]:
+    """R13i -- every kind of factor has as many states as the mode it encodes.
+
+    The templates turn a mode of size ``dim`` (indices 0..dim-1) into an input layer of the requested
+    kind by passing one size keyword: ``num_categories`` (Categorical: that many states),
+    ``num_states`` (Embedding: that many), ``total_count`` (Binomial: ``total_count + 1`` states,
+    0..total_count).  Whatever the kind, the number of states has to be ``dim`` -- a Binomial built
+    with ``total_count=dim`` has one state too many, and a normalised factorisation then sums to less
+    than one over the tensor it encodes."""
+    from ..flow import LocalDefs
+    from ..dims import Dim
+
+    f = ctx.repo.func(fq)
+    out: list[Ob] = []
+    if size not in [p.name for p in f.params]:
+        raise AnalysisError(f"R13i: {fq} has no parameter `{size}`")
+
+    def poly(e: ast.AST):
+        if isinstance(e, ast.Constant) and isinstance(e.value, int) and not isinstance(e.value, bool):
+            return Dim.const(e.value)
+        if isinstance(e, ast.Name):
+            return Dim.sym(e.id)
+        if isinstance(e, ast.BinOp) and isinstance(e.op, (ast.Add, ast.Sub, ast.Mult)):
+            l, r = poly(e.left), poly(e.right)
+            if l is None or r is None:
+                return None
+            return l + r if isinstance(e.op, ast.Add) else l - r if isinstance(e.op, ast.Sub) else l * r
+        return None
+
+    for d in ast.walk(f.node):
+        if not isinstance(d, ast.Dict):
+            continue
+        for k, v in zip(d.keys, d.values):
+            if isinstance(k, ast.Constant) and k.value in STATE_OFFSET:
+                loc = f"{f.module.relpath}:{d.lineno}"
+                inst = f"states==size:{k.value}"
+                pv = poly(v)
+                want = Dim.sym(size) + STATE_OFFSET[k.value]
+                if pv is None:
+                    out.append(unres("R13i", f.qualname, inst, f"`{unparse(v)[:40]}` is not a polynomial of `{size}`: no verdict", loc))
+                elif pv == want:
+                    out.append(ok("R13i", f.qualname, inst, f"{k.value}={unparse(v)}: {size} states", loc))
+                else:
+                    states = pv - STATE_OFFSET[k.value]
+                    out.append(viol("R13i", f.qualname, inst, f"{k.value}={unparse(v)} gives the factor {states!r} states for a mode of size {size}: the encoded tensor ranges over {size} indices per mode, so a normalised factorisation does not sum to one over it (or an index is out of the factor's support)", loc))
+    if not out:
+        out.append(unres("R13i", f.qualname, "states==size", "no size keyword dictionary in the builder (another formulation): no verdict", f.loc))
+    return out
+
+
+def r13i_consistent(ctx: Ctx, fq: str = "cirkit.templates.data_modalities.image_data") -> list[Ob]:
+    """R13i (constants) -- the alternative input layers of one template have the same number of states
+    (256 pixel values: num_categories=256, num_states=256, total_count=255)."""
+    f = ctx.repo.func(fq)
+    found: list[tuple[str, int, int]] = []
+    for d in ast.walk(f.node):
+        if isinstance(d, ast.Dict):
+            for k, v in zip(d.keys, d.values):
+                if isinstance(k, ast.Constant) and k.value in STATE_OFFSET and isinstance(v, ast.Constant) and isinstance(v.value, int):
+                    found.append((k.value, v.value - STATE_OFFSET[k.value], d.lineno))
+    if len(found) < 2:
+        return [unres("R13i", f.qualname, "states-agree", "fewer than two constant size keywords (another formulation): no verdict", f.loc)]
+    states = {s for _, s, _ in found}
+    loc = f"{f.module.relpath}:{found[0][2]}"
+    if len(states) == 1:
+        return [ok("R13i", f.qualname, "states-agree", f"{[k for k, _, _ in found]} all denote {states.pop()} states", loc)]
+    return [viol("R13i", f.qualname, "states-agree", f"the alternative input layers do not have the same number of states: {[(k, s) for k, s, _ in found]} (a Binomial with total count n has n + 1 states)", loc)]
